@@ -12,7 +12,7 @@ RULE = (
     "random (lp, lp', correction, key) tuples incl. +-inf/NaN; per key a ladder of acceptance "
     "probabilities {0, 2^-100, 2^-24 .. 1-2^-24, 1, >1}; zero-draw boundary keys x zero-probability "
     "scenarios; keys whose uniform equals the acceptance probability exactly; eager, jit and vmap. "
-    "non-trivial = tuple with non-finite ratio or alpha in (0,1), and every (boundary key x scenario) "
+    "Also: tuples with log-densities up to 1e7 a few float32 steps apart and a small non-zero correction. non-trivial = tuple with non-finite ratio or alpha in (0,1), and every (boundary key x scenario) "
     "pair and every exact-equality probe; distinct by value hash"
 )
 REQUIRED = ["ladder_monotone", "alpha_zero_rejected", "alpha_one_accepted", "reported_prob",
